@@ -31,6 +31,7 @@ def run_call(c, variant):
         mo_args = mos
     ins = [x] + mos
     before = [base.tdig(t) for t in ins]
+    sp_arg, sp_copy = None, None
     op = c["op"]
     ev = dict(op=op, A=A, x=c["x"], mo=c["mo"], start=c["start"], end=c["end"], sp=c["sp"], valid=True, y=[],
               variant=variant)
@@ -45,7 +46,11 @@ def run_call(c, variant):
             sp = list(c["sp"])
             if len(sp) >= 1 and len(set(sp)) == 1 and (variant // 3) % 2 == 1:
                 sp = sp[0]           # the API also accepts one integer for a constant spacing
+            sp_arg, sp_copy = sp, (list(sp) if isinstance(sp, list) else sp)
+            mo_copy = list(mo_args)
             y = ersatz.multisubstitute(x, mo_args, sp, start=start, alphabet=alphabet)
+            if len(mo_args) != len(mo_copy) or any(a is not b for a, b in zip(mo_args, mo_copy)):
+                sp_copy = "motif list modified"
         elif op == "randomize":
             probs = torch.tensor([[1.0 / A] * A], dtype=torch.float64)
             y = ersatz.randomize(x, c["start"], c["end"], probs=probs, n=1 + variant % 2, random_state=variant)
@@ -69,7 +74,7 @@ def run_call(c, variant):
         ev["st"] = "err"
         ev["kind"] = type(e).__name__
     after = [base.tdig(t) for t in ins]
-    ev["same"] = before == after
+    ev["same"] = before == after and sp_arg == sp_copy      # list arguments (spacing, motif list) count as the caller's data too
     return ev
 
 
